@@ -32,6 +32,11 @@ def oracle(ctx, case, real, rt):
     if bad:
         ctx.violation("eliot API call %s %s" % bad[0], case)
         return
+    for idx in rt.typed_calls:
+        if idx < len(rt.writes) and not rt.writes[idx][1]:
+            ctx.violation("a message logged through a MessageType (spelling %s) reached Logger.write without the type's serializer: "
+                          "its declared fields are delivered as logged" % ([a[0] for a in rt.api if "MessageType" in a[0] or "typed" in a[0]][-1:] or ["?"])[0], case)
+            return
     prog = case["prog"]
     if not (prog and prog[0]["op"] == "addDests" and prog[0]["ds"]):
         return
